@@ -281,7 +281,7 @@ Definition parse_typed_decl (s : pst) : PR (str * nat * option ty) :=
   let s0 := snd (passert T_IDENT s) in
   let name := tlit (cur (cs s0)) in
   let dpos := pos s0 in
-  let s1 := adv (adv s0) in
+  let s1 := adv (snd (passert T_COLON (adv s0))) in   (* the ':' is asserted since /repo 5fe5d4d (before: skipped unseen) *)
   pdo (t, s2) <- p_type s1;
   match t with
   | None => Ok (name, dpos, None) (serr_at K_invalid_type_decl dpos s2)
